@@ -21,6 +21,8 @@ func simDebugMain(args []string) int {
 		return 2
 	}
 	simTrace = true
+	sc = cloneScenario(sc)
+	sc.MaxDev = vkArgInt(args, "dev", sc.MaxDev)
 	s, err := newSimState(sc)
 	if err != nil {
 		fmt.Println("seed failed:", err)
